@@ -7,10 +7,12 @@ targets, integer/boolean index arrays, explicit seeds (owning and non-owning) an
  * backward() changes no tensor's data,
  * after backward(), two tensors' gradients share memory only if the tensors themselves share memory, and no gradient shares memory
    with any tensor's data."""
+import itertools
 import json
 
 import numpy as np
 
+import exactops
 import graphhist as gh
 import inplace
 import progs
@@ -69,6 +71,21 @@ def run(rep, work, tier, seed, props, replay=None):
     if replay is not None and "stmts" in replay:
         builders = [list(replay_mirror(replay["stmts"]))[-1][0]]
         n = 1
+    if replay is None:
+        # index OBJECTS are the caller's too: integer-array indices with negative / repeated entries in every carrier, read (and written through) then back-propagated
+        for sh, vals, carrier, write in itertools.product([(4,), (3, 2)], ([-1, 0], [0, -2, 1], [1, 1, -1]), ({}, {"dtype": "int32"}, {"as_tensor": True}, {"as_list": True}), (False, True)):
+            b = inplace.FBuilder(rng)
+            x = b.leaf(sh, const=False)
+            w = b.apply("multiply", [x, ("array", sh, b.rng_vals(sh, -2, 2))])
+            ix = [dict({"array": list(vals), "shape": [len(vals)], "lone": True}, **carrier)]
+            if write:
+                region = np.asarray(b.bmap[w.name][exactops.py_index(ix)])
+                if not b.setitem(w, ix, ("array", tuple(region.shape), b.rng_vals(region.shape, -2, 2))):
+                    continue
+            g = b.apply("getitem", [w], {"index": ix})
+            if g is None or add_terminal(b, rng) is None:
+                continue
+            builders.append(b)
     while len(builders) < n:
         b = gen_case(rng)
         if b is not None:
